@@ -112,7 +112,16 @@ impl Out {
     }
     pub fn sample<F: FnOnce() -> Value>(&mut self, f: F) {
         if self.samples.len() < self.want_samples {
-            self.samples.push(f());
+            // evidence files stay readable: a sample that renders to more than 64 KiB is kept as its
+            // first 4,000 characters
+            let v = f();
+            let text = v.to_string();
+            if text.len() > 65_536 {
+                let head: String = text.chars().take(4_000).collect();
+                self.samples.push(serde_json::json!({"sample_abbreviated": true, "rendered_bytes": text.len(), "begins": head}));
+            } else {
+                self.samples.push(v);
+            }
         }
     }
     pub fn violation(&mut self, sig: &str, detail: Value) {
